@@ -2325,9 +2325,14 @@ func TestZZVerifC07Trace(t *testing.T) {
 				r.Data = []int{}
 			}
 
+			// The same request a second time (the state has not changed):
+			// only a reply that repeats is judged.
+			r2 := x.search(q)
+			same := r2.St == r.St && zzC07EqInts(r2.Data, r.Data) && r2.Oldest == r.Oldest
+
 			emit("search", map[string]any{
 				"p": map[string]any{"older": q.Older, "limit": q.Limit, "offset": q.Offset, "term": q.Term, "status": q.Status},
-				"r": map[string]any{"st": r.St, "data": r.Data, "oldest": r.Oldest, "msg": r.Msg, "url": r.URL},
+				"r": map[string]any{"st": r.St, "data": r.Data, "oldest": r.Oldest, "msg": r.Msg, "url": r.URL, "same": same},
 			})
 		case roll < 975:
 			if !fe {
